@@ -6,7 +6,6 @@ import (
 	"path/filepath"
 	"sort"
 	"strings"
-	"testing/synctest"
 
 	"verif/sim/kernel"
 
@@ -92,7 +91,7 @@ func (s *Sim) maybeForkTwin(n *Node) {
 	}
 	s.log.Add("  fork twin of n%d at persistence instant %d", n.id, s.persistSeen)
 	s.stat("twin_forked", 1)
-	synctest.Wait()
+	s.quiesce()
 	s.compareTwin()
 }
 
